@@ -400,3 +400,67 @@ Section LleModel.
         end
     end.
 End LleModel.
+
+(* ====================================================================== *)
+(*  A certifying linear solver (stands for ldlt().solve in the executable  *)
+(*  instance): Gauss-Jordan elimination with first-non-zero pivoting on    *)
+(*  the augmented rows, followed by an explicit CHECK  A x = b ; the       *)
+(*  answer is returned only when the check succeeds, so                    *)
+(*  `solve_checked k A b = Some x -> A x = b` needs no reasoning about the *)
+(*  elimination itself (Lle_Proof.solve_checked_sound).                    *)
+(* ====================================================================== *)
+Section Gauss.
+  Context {F : Type} {Fo : FieldOps F}.
+  Variable feqb : F -> F -> bool.
+  Local Open Scope F_scope.
+  Local Notation vec := (Mat_Core.vec F).
+  Local Notation mat := (Mat_Core.mat F).
+
+  Fixpoint row_sub (r p : list F) (f : F) : list F :=
+    match r, p with
+    | x :: r', y :: p' => (x - f * y) :: row_sub r' p' f
+    | _, _ => []
+    end.
+
+  Fixpoint find_pivot (c : nat) (rows : list (list F)) : option (list F * list (list F)) :=
+    match rows with
+    | [] => None
+    | r :: rs =>
+        if feqb (nth c r 0) 0 then
+          match find_pivot c rs with
+          | Some (p, rest) => Some (p, r :: rest)
+          | None => None
+          end
+        else Some (r, rs)
+    end.
+
+  Fixpoint gj_loop (n c : nat) (done todo : list (list F)) : option (list (list F)) :=
+    match n with
+    | O => Some done
+    | S n' =>
+        match find_pivot c todo with
+        | None => None
+        | Some (p, rest) =>
+            let pv := nth c p 0 in
+            let p' := map (fun x => x / pv) p in
+            let elim := fun r => row_sub r p' (nth c r 0) in
+            gj_loop n' (S c) (map elim done ++ [p']) (map elim rest)
+        end
+    end.
+
+  Definition gauss (k : nat) (AL : list (list F)) (bl : list F) : option (list F) :=
+    match gj_loop k 0 [] (map (fun rb => fst rb ++ [snd rb]) (combine AL bl)) with
+    | Some done => Some (map (fun r => nth k r 0) done)
+    | None => None
+    end.
+
+  Definition solve_checked (k : nat) (A : mat) (b : vec) : option (list F) :=
+    let AL := mtab k k A in
+    match gauss k AL (vtab k b) with
+    | None => None
+    | Some x =>
+        if (Nat.eqb (length x) k &&
+            forallb (fun i => feqb (mv k (mof AL) (vof x) i) (b i)) (seq 0 k))%bool
+        then Some x else None
+    end.
+End Gauss.
